@@ -107,6 +107,20 @@ LevelSumTerm(A, a, b, sign) ==
       sum == <<"mul", Q(10, 1), <<"log10", IF sign = 1 THEN <<"add", pa, pb>> ELSE <<"sub", pa, pb>>>>>>
   IN <<"div", <<"div", sum, Q(10, 1)>>, PrefixTerm(A)>>
 
+\* the level pairs of the sum scenarios, in DECIBELS (the harness rescales them to the unit of the operands):
+\* every base level with every difference 0 .. 200 dB, in both orders - a sum must follow the power-sum formula
+\* whether the second term is equal, comparable or twenty decades below the first
+SumBasesdB == << <<0 - 174, 1>>, <<0 - 10, 1>>, <<0, 1>>, <<20, 1>>, <<60, 1>>, <<94, 1>> >>
+SumDiffsdB == << <<0, 1>>, <<1, 10>>, <<1, 1>>, <<3, 1>>, <<4, 1>>, <<10, 1>>, <<16, 1>>, <<33, 2>>, <<17, 1>>, <<20, 1>>, <<24, 1>>,
+                <<40, 1>>, <<60, 1>>, <<100, 1>>, <<150, 1>>, <<200, 1>> >>
+SumPairsdB == [k \in 1..(2 * Len(SumBasesdB) * Len(SumDiffsdB)) |->
+                 LET i == ((k - 1) \div (2 * Len(SumDiffsdB))) + 1
+                     j == (((k - 1) % (2 * Len(SumDiffsdB))) \div 2) + 1
+                     a == SumBasesdB[i]  b == QSub(SumBasesdB[i], SumDiffsdB[j])
+                 IN IF k % 2 = 1 THEN <<a, b>> ELSE <<b, a>>]
+\* a difference of levels is defined when the first level is the larger one
+SubDefined(pr) == QLt(pr[2], pr[1])
+
 (* ------------------------------------------------------------ exact lattice *)
 \* numbers m * 10^e with a rational mantissa m free of factors of ten
 RECURSIVE Strip10(_)
